@@ -900,6 +900,9 @@ def literal_family():
         H("c07_bytes_literal_%d" % w, "h_text::bytes_literals(%d)" % w, Q("C07"), unwind=64, bound="LITERAL POINT: two's complement byte round trip of one literal integer at a word/byte boundary (case %d of 16: +-2^64, -2^72, +-2^128, -(2^128+1), +-2^135, -2^136, +-(2^136-1), -(2^136+1), +-2^143, +-2^192)" % w)
     for w in range(20):
         H("c07_parse_literal_%d" % w, "h_text::parse_literals(%d)" % w, Q("C07"), unwind=12, bound="LITERAL POINT: from_str_with_radix_prefix on one literal text (case %d of 20: signs after the prefix, doubled signs, empty bodies, digits outside the radix, upper-case prefix, leading space)" % w)
+    for w in range(20):
+        H("c13_inv_large_literal_%d" % w, "h_mod::ring_inv_large_literals(%d)" % w, Q("C13"), unwind=16,
+          bound="LITERAL POINT: inv_large (hook verif_inv_large) in a 3-word ring m = (2^64+1)*c, case %d of 20: residues of 1-3 words with and without a common factor with m, expected value a constant computed outside" % w)
     H("c14_ord_float_literals", "h_numord::ord_float_literals()", Q("C14"), "i64", unwind=16, bound="LITERAL POINTS: NumOrd of 7 small integers against 9 literal f32/f64 values (fractions, halves, integers, -0.0, NaN)")
     H("c06_from_float_literals", "h_conv::from_float_literals()", Q("C06"), "i64", unwind=16, bound="LITERAL POINTS: TryFrom<f32/f64> for IBig/UBig on 6 integral and 7 non-integral / non-finite literals")
     # h_float::ctx_add_literals (C03, not claimed) stays unregistered: see DESIGN 0.3
